@@ -14,6 +14,13 @@ Theorem C20_directives : gen_boundscheck = true /\ gen_wraparound = false /\ gen
 Proof. repeat split; reflexivity. Qed.
 Print Assumptions C20_directives.
 
+(* outside the extern declarations no .pyx file declares a pointer, takes an
+   address or calls an allocator: every array access that is not one of the
+   raw hand-overs below goes through a checked typed buffer or a Python object *)
+Theorem C20_no_raw_pointers_in_pyx : gen_no_raw_pointers_in_pyx = true.
+Proof. reflexivity. Qed.
+Print Assumptions C20_no_raw_pointers_in_pyx.
+
 (* what that buys: a checked access yields a value from inside the buffer or
    an IndexError, for every index *)
 Theorem C20_checked_access_total (d : Z) buf i :
@@ -56,3 +63,34 @@ Print Assumptions C20_index_accesses_in_range.
 Theorem C20_accesses_covered : 30 <= gen_access_count.
 Proof. vm_compute. repeat constructor. Qed.
 Print Assumptions C20_accesses_covered.
+
+(* the pointer-walking routines (surrogate test matrices, histogram mutual
+   information): induction variables and pointer offsets resolved by the
+   abstract interpreter of translate/c_pointer_walk.py; their accesses are
+   part of gen_all_accesses_in_range above *)
+Theorem C20_pointer_walks_covered : 20 <= gen_walk_access_count.
+Proof. vm_compute. repeat constructor. Qed.
+Print Assumptions C20_pointer_walks_covered.
+
+(* the bin number written by the guarded assignment is a valid column for
+   every sample: NaN, +inf or any non-negative number *)
+Theorem C20_bin_number_in_range r n_bins undef : (1 <= n_bins)%Z -> rescaled_ok r ->
+  (0 <= symbolise_guarded r n_bins undef < n_bins)%Z.
+Proof. exact (symbolise_in_range r n_bins undef). Qed.
+Print Assumptions C20_bin_number_in_range.
+
+(* why the guard matters: without it a NaN sample selects an arbitrary column *)
+Theorem C20_unguarded_bin_escapes n_bins : (1 <= n_bins)%Z ->
+  exists undef, ~ (0 <= symbolise_unguarded FNaN n_bins undef < n_bins)%Z.
+Proof. exact (symbolise_unguarded_escapes n_bins). Qed.
+Print Assumptions C20_unguarded_bin_escapes.
+
+(* in the CURRENT source: every write into a symbol array is the guarded
+   assignment of rescaled = scaling * (sample - range_min); the wrappers
+   allocate the extents assumed, take range_min / scaling from the data and
+   reject n_bins < 1 *)
+Theorem C20_histogram_wrappers :
+  gen_walk_guarded = true /\ gen_walk_rescaled = true /\ gen_walk_shapes = true /\
+  gen_walk_range = true /\ gen_walk_nbins = true.
+Proof. repeat split; reflexivity. Qed.
+Print Assumptions C20_histogram_wrappers.
